@@ -153,6 +153,13 @@ def run_item(ctx, item):
         ti = t.inverse(update_buffers=True)
         ti.update()
         ctx.close("SVF_inverse_u_equals_expv_negative", ti.u, expv(v.float(), scale=-1, steps=k, align_corners=ac), 1e-5, key="SVF/inverse", steps=k, **info)
+        # derived copies (other convention, more steps) must not change what the original computes afterwards
+        other = t.grid(grid.align_corners(not ac))
+        other.update()
+        t.update()
+        ctx.close("SVF_u_buffer_unchanged_by_regridded_copy", t.u, ref, 2e-4, key="SVF/u_after_copy", steps=k, **info)
+        ti2 = t.inverse(update_buffers=True)
+        ctx.close("SVF_inverse_u_ready_after_inverse_with_update_buffers", ti2.u, expv(v.float(), scale=-1, steps=k, align_corners=ac), 1e-5, key="SVF/inverse", steps=k, **info)
     if all(n >= 4 for n in shape):
         with ctx.guard("SVFFD", **info):
             from deepali.spatial import StationaryVelocityFreeFormDeformation
